@@ -973,3 +973,42 @@ pub fn generate_op_fastpath(rng: &mut Rng, n: usize, _tier: &str) -> Vec<String>
     }
     out
 }
+
+/// RUN stream: every unary / table-driven operator on every value 0..=300 and around the powers of two
+/// (precomputed tables, fast paths and range checks are indexed by small values: each index is hit),
+/// and the tree operators on a list of all of them
+pub fn generate_run_small_values(_rng: &mut Rng, _n: usize, _tier: &str) -> Vec<String> {
+    let mut out = vec![];
+    let mut id = 0;
+    let mut vals: Vec<i128> = (0..=300).collect();
+    for k in [15u32, 16, 23, 24, 25, 26, 31, 32] {
+        for d in [-1i128, 0, 1] {
+            vals.push((1i128 << k) + d);
+        }
+    }
+    vals.extend([-1, -128, -129, -32768]);
+    let flag_sets = [0x400u32, 0x2400];
+    for &v in &vals {
+        for &f in &flag_sets {
+            for prog in [
+                call(63, vec![quote(int(v))]),                        // sha256tree of the atom
+                call(11, vec![quote(int(v))]),                        // sha256 (precomputed one-byte hashes)
+                call(11, vec![quote(atom(&[1])), quote(int(v))]),     // sha256 1 v : the tree-hash leaf pattern
+                call(27, vec![quote(int(v))]),                        // lognot
+                call(13, vec![quote(int(v))]),                        // strlen
+                call(30, vec![quote(int(v))]),                        // pubkey_for_exp
+                int(v),                                               // as a path into the environment
+            ] {
+                out.push(format!("RUN v{} chia {:x} 0 - {} {}", id, f, trees::to_hex(&prog), "ff8180ff8181ff818280"));
+                id += 1;
+            }
+        }
+    }
+    // the tree operator on one tree holding all small values (inline) and the same values as 2-byte atoms
+    let all = T::list(vals.iter().filter(|v| **v >= 0 && **v <= 300).map(|v| int(*v)).collect());
+    for &f in &flag_sets {
+        out.push(format!("RUN v{} chia {:x} 0 - {} {}", id, f, trees::to_hex(&call(63, vec![int(1)])), trees::to_hex(&all)));
+        id += 1;
+    }
+    out
+}
